@@ -160,6 +160,26 @@ pub fn judge_unit(op: usize, a: i128, u: Unit, out: &mut Local) {
     }
 }
 
+/// Unit + Unit and Unit - Unit (both operands units)
+pub fn judge_unit_unit(op: usize, u: Unit, w: Unit, out: &mut Local) {
+    let t = if op == 0 { unit_ns(u) + unit_ns(w) } else { unit_ns(u) - unit_ns(w) };
+    let got = guard(|| if op == 0 { u + w } else { u - w });
+    let check = if op == 0 { "c01.unit_add_unit" } else { "c01.unit_sub_unit" };
+    let args = vec![unit_name(u).to_string(), unit_name(w).to_string()];
+    match &got {
+        Ok(d) if canonical(*d) && alpha(*d) == t => {
+            out.ok(1, t < 0, (t < 0) as u64 | ((t == 0) as u64) << 1);
+            if out.want_sample(t < 0) {
+                out.sample(check, args, format!("-> {}", describe(t)), t < 0);
+            }
+        }
+        _ => {
+            let (cls, obs) = wrong_dur(&got, t);
+            out.viol(check, cls, args, describe(t), obs);
+        }
+    }
+}
+
 // ---------------------------------------------------------------------------------------------
 // Mode A: operation sequences from non-initial states
 
@@ -290,6 +310,7 @@ pub fn run(rep: &mut Report) {
             judge_unit(op, d[(i / 9) as usize], UNITS[(i % 9) as usize], out);
         });
     }
+    sweep(rep, "c01.unit_op_unit", 2 * 81, |i, out| judge_unit_unit((i / 81) as usize, UNITS[((i / 9) % 9) as usize], UNITS[(i % 9) as usize], out));
     let depth = if deep { 5 } else { 4 };
     rep.bound("seq_depth", depth as u64);
     let spec = Seq { acts: seq_alphabet(), inits: vec![0, DMIN, DMAX, -1, -NPC, -2 * NPC + NPC - 1], depth };
@@ -307,6 +328,8 @@ pub fn replay(check: &str, a: &[String], out: &mut Local) -> bool {
         judge_scale(op, p128(&a[0]), p64(&a[1]), out);
     } else if let Some(op) = UNIT_OPS.iter().position(|x| *x == name) {
         judge_unit(op, p128(&a[0]), unit_from(&a[1]), out);
+    } else if name == "unit_add_unit" || name == "unit_sub_unit" {
+        judge_unit_unit((name == "unit_sub_unit") as usize, unit_from(&a[0]), unit_from(&a[1]), out);
     } else {
         return false;
     }
